@@ -6,6 +6,7 @@ From PC Require Import Base.Cmp Base.Result Model.Pep440 Spec.Pep440Spec Spec.Sp
      Proofs.VersionFacts Proofs.RangeSpec Proofs.SpecifierAgree.
 From PC Require Import Proofs.UnionHull Proofs.UnionExact Proofs.InterExact Proofs.ParseCompose Proofs.Pep440RoundTrip Proofs.ClauseText Proofs.WildcardText Proofs.WildcardMembership.
 From PC Require Import Gen.RangeCmp Gen.RangeAllows Proofs.GenAgreeAllows.
+From PC Require Import Proofs.DiffUnion Proofs.SortedOrder Proofs.UnionSorted Proofs.Closure.
 Import ListNotations.
 Open Scope string_scope.
 
@@ -141,3 +142,22 @@ Theorem C04_member_allows_of_current_source : forall r v,
   (match r with RV x => v_allows_gen x (Some v) | RR _ _ _ _ => rr_allows_gen r v end) = r_allows r v.
 Proof. exact r_allows_agrees. Qed.
 Print Assumptions C04_member_allows_of_current_source.
+
+(* comma sets and '||' with ANY clauses - '!=' and negated wildcards included: the gap left by C04_comma_set (which asked for
+   range-like clauses) is closed by the closure theorem of C05: over mutually regular bounds B, a comma set of clauses of the class
+   K_B parses to a constraint of the class that admits exactly the conjunction, and '||' of such groups to one that admits exactly
+   the disjunction; the parsed '!=V' is in the class *)
+Theorem C04_comma_set_general : forall B, mutual B -> forall m clauses g, parse_group m clauses = Ok g ->
+  exists cs, mapR (parse_single_pep m) clauses = Ok cs /\
+    (Forall (inK B) cs -> inK B g /\ forall v, wf v = true -> regB B v = true -> sem g v = forallb (fun x => sem x v) cs).
+Proof. exact parse_group_general. Qed.
+Print Assumptions C04_comma_set_general.
+Theorem C04_or_groups_general : forall B, mutual B -> forall m groups c, parse_constraint_groups m groups = Ok c ->
+  exists gs, mapR (parse_group m) groups = Ok gs /\
+    (Forall (inK B) gs -> inK B c /\ forall v, wf v = true -> regB B v = true -> sem c v = existsb (fun x => sem x v) gs).
+Proof. exact or_groups_general. Qed.
+Print Assumptions C04_or_groups_general.
+Theorem C04_exclusion_in_class : forall B v, wf v = true -> is_local v = false -> In v B ->
+  inK B (VUnion [RR None (Some v) false false; RR (Some v) None false false]).
+Proof. exact ne_in_K. Qed.
+Print Assumptions C04_exclusion_in_class.
